@@ -19,8 +19,9 @@ InstantDiff(i1, i2, largest, smallest, inc, mode, isSince) ==
       m == IF isSince THEN NegateMode(mode) ELSE mode
       bal == BalanceDur(RoundBig(diff, IncNs(inc, smallest), m), largest)
   IN Ok(IF isSince THEN NegDur(bal) ELSE bal)
-\* round: signed RoundNumberToIncrement on the epoch value (the reading of C07's wording this suite uses, see DESIGN Appendix A)
-InstantRound(i, u, inc, mode) == InstantNew(RoundBig(i, IncNs(inc, u), mode))
+\* round: Temporal's RoundTemporalInstant = RoundNumberToIncrementAsIfPositive on the epoch value (an instant before the epoch
+\* rounds in the same timeline direction as one after it: trunc goes toward the past)
+InstantRound(i, u, inc, mode) == InstantNew(RoundBigAsIfPositive(i, IncNs(inc, u), mode))
 EpochMs(i) == FloorDivSmall(FloorDivSmall(i, 1000).q, 1000).q
 FromEpochMs(ms) == InstantNew(K6(ms))
 =============================================================================
